@@ -2,7 +2,7 @@
    Proved on the model of shutdown.rs (Model/ShutdownM.v) for every interleaving of registrations,
    waits, submissions, wind-downs and the coordinator's completion wait. *)
 From Coq Require Import List NArith Bool.
-From TT Require Import Model.ShutdownM Generated.ShutdownFacts Proofs.ShutdownProofs.
+From TT Require Import Model.ShutdownM Generated.ShutdownFacts Generated.Http1Facts Proofs.ShutdownProofs.
 Import ListNotations.
 
 (* in EVERY reachable state, a submission reaches every participant registered before it that has
@@ -95,6 +95,32 @@ Print Assumptions process_exits_only_after_the_last_participant.
 Example ex_exit_at_listener_return :
   process_may_exit false (srun [Register; Register; Wait 0; Wait 1; Submit; Finish 0; Complete]) true = true
   /\ completion_done (srun [Register; Register; Wait 0; Wait 1; Submit; Finish 0; Complete]) = false.
+Proof. split; reflexivity. Qed.
+
+(* "without hanging": a notified HTTP/1.1 session finishes within the bound of its orderly close whatever its client does - a client
+   that reads nothing included - so the last participant does finish and completion returns; and the bound costs a client that does
+   read nothing: one that takes what is left within the bound is closed in an orderly way, at the moment it has taken it *)
+Theorem http1_session_finishes_within_its_bound :
+  (forall taken_at, exists t orderly,
+      h1_close HTTP1_ORDERLY_CLOSE_BOUNDED HTTP1_GRACEFUL_SHUTDOWN_TIMEOUT_MS taken_at = Some (t, orderly)
+      /\ (t <= HTTP1_GRACEFUL_SHUTDOWN_TIMEOUT_MS)%N)
+  /\ (forall t, (t < HTTP1_GRACEFUL_SHUTDOWN_TIMEOUT_MS)%N ->
+        h1_close HTTP1_ORDERLY_CLOSE_BOUNDED HTTP1_GRACEFUL_SHUTDOWN_TIMEOUT_MS (Some t) = Some (t, true))
+  /\ (1000 <= HTTP1_GRACEFUL_SHUTDOWN_TIMEOUT_MS)%N.
+Proof.
+  change HTTP1_ORDERLY_CLOSE_BOUNDED with true. split; [|split].
+  - intros [t|]; cbn [h1_close andb].
+    + destruct (t <? HTTP1_GRACEFUL_SHUTDOWN_TIMEOUT_MS)%N eqn:E; cbn [negb].
+      * exists t, true. split; [reflexivity|]. apply N.ltb_lt in E. apply N.lt_le_incl, E.
+      * exists HTTP1_GRACEFUL_SHUTDOWN_TIMEOUT_MS, false. split; [reflexivity|apply N.le_refl].
+    + exists HTTP1_GRACEFUL_SHUTDOWN_TIMEOUT_MS, false. split; [reflexivity|apply N.le_refl].
+  - intros t H. cbn [h1_close andb]. apply N.ltb_lt in H. rewrite H. reflexivity.
+  - discriminate.
+Qed.
+Print Assumptions http1_session_finishes_within_its_bound.
+
+(* as found: the session of a client that reads nothing never finished *)
+Example ex_unbounded_close : h1_close false 10000 None = None /\ h1_close true 10000 None = Some (10000%N, false).
 Proof. split; reflexivity. Qed.
 
 Theorem code_facts :
